@@ -21,10 +21,13 @@ def mergeOp (j : Json) : Json :=
     | .str "load" => (acc.1 ++ [Call.load "other.vuego".toList], acc.2)
     | .str "load-page" => (acc.1 ++ [Call.load "page.vuego".toList], acc.2)
     | _ => (acc.1 ++ [Call.fill (single key true (if acc.2 == 0 then "fill" else "fill2"))], acc.2 + 1)) ([], 0)
-  let loaded := (jarrK j "calls").any (fun c => match c with | .str "load-page" => true | _ => false)
-  let t := run Generated.mergeCfg E (base Generated.mergeCfg E) (if loaded then calls else calls ++ [Call.load "page.vuego".toList])
-  match renderEnv Generated.mergeCfg E t "page.vuego".toList key with
-  | some v => S v.sprint
-  | none => S []
+  -- what `Get(key)` answers on the template the calls end with, before the page is (re)loaded for rendering
+  let t0 := run Generated.mergeCfg E (base Generated.mergeCfg E) calls
+  let getV : Str := match t0.vars key with | some v => v.sprint | none => []
+  -- a `new` after `load-page` leaves a file-less template: the page is loaded (again) for rendering
+  let needsLoad := ((jarrK j "calls").foldl (fun (ld : Bool) c => match c with | .str "load-page" => true | .str "new" => false | _ => ld) false) == false
+  let t := if needsLoad then apply Generated.mergeCfg E t0 (Call.load "page.vuego".toList) else t0
+  let rendered : Str := match renderEnv Generated.mergeCfg E t "page.vuego".toList key with | some v => v.sprint | none => []
+  O [("render", S rendered), ("get", S getV)]
 
 end Vuego.Driver
